@@ -368,3 +368,20 @@ Section RoundTrip.
     - eexists. eexists. split; [reflexivity|]. unfold decode. rewrite Hd, Hvalid. reflexivity.
   Qed.
 End RoundTrip.
+
+(* the pre-tokenizer as an arbitrary function that splits its input *)
+Theorem decode_encode_pretok o b :
+  bpe_new o = inl b -> vocab_inj (spec_vocab o) ->
+  N.of_nat (length (o_merges o)) <= 4294967296 ->
+  NoDup (map fst (spec_vocab o)) -> added_ok (spec_vocab o) (o_added o) ->
+  norm_eow (o_eow o) = None ->
+  forall pretok : list N -> list piece,
+    (forall text, utf8_valid text = true -> pieces_cover text (pretok text) = true) ->
+    forall text, utf8_valid text = true ->
+    exists ids offs, tk_encode b text None (pretok text) = Ok (ids, offs) /\ decode b ids = DecOk text.
+Proof.
+  intros H1 H2 H3 H4 H5 H6 pretok Hsplit text Hv.
+  apply (decode_encode o b H1 H2 H3 H4 H5 H6 text None (pretok text) Hv eq_refl).
+  - intros base _. eexists; reflexivity.
+  - apply Hsplit. exact Hv.
+Qed.
